@@ -452,6 +452,22 @@ func (env *SpecEnv) evalIdent(name string) (TV, error) {
 func (env *SpecEnv) evalDollar(name string) (TV, error) {
 	ex := env.ex
 	li := env.loop
+	// $doneK: the K-th loop (a range-over-slice loop) has visited all its elements
+	if strings.HasPrefix(name, "done") {
+		k, err := strconv.Atoi(strings.TrimPrefix(name, "done"))
+		if err != nil || k < 1 || k > len(ex.loopList) {
+			return TV{}, fmt.Errorf("$%s: no such loop", name)
+		}
+		l := ex.loopList[k-1]
+		if l.rangeIdx == nil || l.rangeLen == nil {
+			return TV{}, fmt.Errorf("$%s: loop %d is not a range-over-slice loop", name, k)
+		}
+		n, ok := ex.regs[l.rangeLen]
+		if !ok {
+			return TV{TFalse, types.Typ[types.Bool]}, nil
+		}
+		return TV{Ge(ex.load(env.state(), LocLocal{l.rangeIdx}), n), types.Typ[types.Bool]}, nil
+	}
 	// ghost observations of call results
 	if env.calleeFn != nil {
 		if con := ex.P.contractOf(env.calleeFn); con != nil {
